@@ -227,6 +227,7 @@ func runOnePatch(id, patch, repo string) int {
 			}
 		}()
 		props[id].Run(c)
+		runED(c)
 		c.finish()
 	}()
 	baseline := map[string]bool{}
